@@ -3,7 +3,7 @@
     self-redirect skip, proxy/http_proxy.go redirect branch).  Statements, [exact],
     [Print Assumptions] only. *)
 From Coq Require Import String List NArith ZArith.
-From Fabio Require Import Lib.Outcome Lib.Bytes Model.Redirect Model.RedirectSpec Model.RedirectTag Model.RedirectProto Proofs.Redirect Proofs.RedirectTag Proofs.RedirectProto.
+From Fabio Require Import Lib.Outcome Lib.Bytes Model.Redirect Model.RedirectSpec Model.RedirectTag Model.RedirectProto Model.RedirectNoGlob Proofs.Redirect Proofs.RedirectTag Proofs.RedirectProto Proofs.RedirectNoGlob.
 Import ListNotations.
 Local Open Scope N_scope.
 
@@ -419,3 +419,82 @@ Theorem C13_scheme_grid_nonvacuous :
   /\ codes_ok [Some t_to_https; Some t_web] = true.
 Proof. exact grid_nonvacuous. Qed.
 Print Assumptions C13_scheme_grid_nonvacuous.
+
+(* ------------------------------------------------------------------ *)
+(* round 8: Table.Lookup with GLOB MATCHING DISABLED (glob.matching.disabled=true;
+   Model/RedirectNoGlob.v).  The host test of matchingHostNoGlob (normalizeHost on both sides)
+   is the specification's "the pattern IS the request's host": the same name up to letter case,
+   the default port of the connection's scheme written or left out on either side ([bare_of],
+   [same_host_said]); no pattern is interpreted. *)
+Theorem C13_noglob_host_test_spec : forall tls pat host,
+  beq (normalize_host pat tls) (normalize_host host tls) = true <-> same_host_said tls pat host.
+Proof. exact host_matches_iff. Qed.
+Print Assumptions C13_noglob_host_test_spec.
+(* the three-alternative decision by which Check/C13.v judges the implementation is that reading *)
+Theorem C13_noglob_decision_spec : forall tls pat host,
+  same_hostb tls pat host = true <-> same_host_said tls pat host.
+Proof. exact same_hostb_iff. Qed.
+Print Assumptions C13_noglob_decision_spec.
+(* the routes Lookup visits in this mode: those of the table hosts that are the request's host,
+   in table order - for every table and request *)
+Theorem C13_noglob_candidates : forall tv host tls, cands_said tls host tv (matching_noglob tv host tls).
+Proof. exact noglob_candidates. Qed.
+Print Assumptions C13_noglob_candidates.
+(* THE ANSWER in this mode, for every request, table view and host-less route: the host loop runs
+   over those routes and then the host-less ones; the answering route is the first that is not
+   a redirect pointing back at the request (reference loop [ref_lookup]) *)
+Theorem C13_noglob_answer : forall q tv fb l,
+  cands_said (q_tls q) (q_host q) tv l ->
+  handle_noglob q tv fb = handle q (l ++ [fb])
+  /\ chosen_target (lookup_noglob q tv fb) = ref_lookup q (l ++ [fb]).
+Proof. exact noglob_answer. Qed.
+Print Assumptions C13_noglob_answer.
+(* a request for a host the table does not know is answered by the host-less routes exactly as
+   by a Lookup that visits only them *)
+Theorem C13_hostless_either_mode : forall q tv fb,
+  (forall pat o, In (pat, o) tv -> ~ same_host_said (q_tls q) pat (q_host q)) ->
+  handle_noglob q tv fb = handle q [fb].
+Proof. exact hostless_either_mode. Qed.
+Print Assumptions C13_hostless_either_mode.
+(* THE CLAUSE for a host-less redirect route with glob matching disabled: a request whose host is
+   no host of the table, matching a host-less redirect route that does not point back at it,
+   receives the configured 3xx and the Location of THIS request; no upstream is contacted *)
+Theorem C13_noglob_hostless_redirect : forall q tv t wire,
+  (forall pat o, In (pat, o) tv -> ~ same_host_said (q_tls q) pat (q_host q)) ->
+  is_redirect t = true -> code_ok (t_code t) = true ->
+  tmpl_dom t = true -> req_dom t wire q = true -> set_path wire = Some (q_path q, q_rawpath q) ->
+  points_back (build_redirect_url t q) q = false ->
+  handle_noglob q tv (Some t) = RRedirect (t_code t) (expected_location t wire q)
+  /\ upstream_calls (handle_noglob q tv (Some t)) = O.
+Proof. exact noglob_hostless_redirect. Qed.
+Print Assumptions C13_noglob_hostless_redirect.
+(* route add svc /docs https://www.foo.com$path opts "redirect=302" (no host) beside
+   example.com/ and *.example.org/ services: Host intranet.local and a.example.org (a glob
+   pattern is a literal key in this mode) get the 302; Example.COM:80 / example.com:443 over TLS
+   are the table's host; example.com:443 on a plain connection is not *)
+Theorem C13_noglob_hostless_redirect_nonvacuous :
+  (forall pat o, In (pat, o) ng_tv -> ~ same_host_said false pat (bs "intranet.local"))
+  /\ is_redirect ng_docs = true /\ code_ok (t_code ng_docs) = true /\ tmpl_dom ng_docs = true
+  /\ req_dom ng_docs (bs "/docs/setup") (ng_q (bs "intranet.local") false) = true
+  /\ points_back (build_redirect_url ng_docs (ng_q (bs "intranet.local") false)) (ng_q (bs "intranet.local") false) = false
+  /\ handle_noglob (ng_q (bs "intranet.local") false) ng_tv (Some ng_docs)
+     = RRedirect 302%Z (bs "https://www.foo.com/docs/setup?v=2")
+  /\ handle_noglob (ng_q (bs "a.example.org") false) ng_tv (Some ng_docs)
+     = RRedirect 302%Z (bs "https://www.foo.com/docs/setup?v=2")
+  /\ handle_noglob (ng_q (bs "Example.COM:80") false) ng_tv (Some ng_docs) = RProxy 1
+  /\ handle_noglob (ng_q (bs "example.com:443") true) ng_tv (Some ng_docs) = RProxy 1
+  /\ handle_noglob (ng_q (bs "example.com:443") false) ng_tv (Some ng_docs)
+     = RRedirect 302%Z (bs "https://www.foo.com/docs/setup?v=2").
+Proof. exact noglob_hostless_redirect_nonvacuous. Qed.
+Print Assumptions C13_noglob_hostless_redirect_nonvacuous.
+(* the self-redirect skip in this mode: http://$host/$path on example.com:80 points back at a
+   plain request for example.com and is passed over (service behind / host-less redirect behind);
+   on example.com:443 over TLS it does not point back and answers *)
+Theorem C13_noglob_self_redirect_skipped_nonvacuous :
+  handle_noglob (ng_q (bs "example.com") false) [(bs "example.com:80", Some ng_self80); (bs "example.com", Some ng_web)] (Some ng_docs) = RProxy 1
+  /\ handle_noglob (ng_q (bs "example.com") false) [(bs "example.com:80", Some ng_self80)] (Some ng_docs)
+     = RRedirect 302%Z (bs "https://www.foo.com/docs/setup?v=2")
+  /\ handle_noglob (ng_q (bs "example.com") true) [(bs "example.com:443", Some ng_self80)] None
+     = RRedirect 301%Z (bs "http://example.com/docs/setup?v=2").
+Proof. exact noglob_self_redirect_skipped_nonvacuous. Qed.
+Print Assumptions C13_noglob_self_redirect_skipped_nonvacuous.
